@@ -23,7 +23,8 @@ RULE = ('Hypothesis RuleBasedStateMachine over an agent process that links /repo
 ASSUME = ['Linux tmpfs semantics of the POSIX mirror calls are the reference ("the corresponding POSIX operations")',
           'rights are mapped to open(2) access modes as wasi.c documents (read|write -> O_RDWR, write -> O_WRONLY, else O_RDONLY)']
 
-NONTRIVIAL = ('positional_then_sequential', 'multi_iovec_with_empty', 'offset>=2^32', 'offset>=2^63', 'append', 'unstable_seek', 'filestat_of_renamed_or_unlinked_open_file')
+NONTRIVIAL = ('positional_then_sequential', 'multi_iovec_with_empty', 'offset>=2^32', 'offset>=2^63', 'append', 'unstable_seek', 'filestat_of_renamed_or_unlinked_open_file',
+              'write_at_file_size_limit')
 OFFSETS = st.one_of(st.integers(0, 4096), st.sampled_from([0, 1, 99, (1 << 31) - 1, 1 << 31, (1 << 32) - 1, 1 << 32, (1 << 32) + 5,
                                                           1 << 33, 1 << 40, (1 << 63) - 1,
                                                           # the full 64-bit range: as off_t these are negative (POSIX: EINVAL)
@@ -79,6 +80,21 @@ class C12Machine(RuleBasedStateMachine):
                 self.ex.fd_read(fd, lens)
             else:
                 self.ex.fd_pread(fd, lens, offset)
+
+    @rule(fd=fds, bufs=st.lists(st.binary(min_size=0, max_size=48), min_size=1, max_size=4), positional=st.booleans(),
+          offset=st.integers(0, 200), rel=st.integers(-40, 60), absolute=st.sampled_from([None, None, 0, 1, 50, 100]))
+    def limited_write(self, fd, bufs, positional, offset, rel, absolute):
+        # a write that meets a hard boundary (the process's file-size limit): limit placed around the file's current size
+        ex = self.ex
+        d = ex.fds.get(fd)
+        if d is None or d['closed'] or d['kind'] != 'file' or d['mfd'] is None:
+            return
+        try:
+            size = os.fstat(d['mfd']).st_size
+        except OSError:
+            return
+        limit = absolute if absolute is not None else max(0, size + rel)
+        ex.limited_write(fd, bufs, offset if positional else None, limit)
 
     @rule(fd=fds, lens=LENS)
     def fd_read(self, fd, lens):
